@@ -183,6 +183,8 @@ type State struct {
 	nextTID    int
 	// race monitor state
 	Shadow map[shadowKey]*shadowCell
+	SyncVC map[shadowKey][]int32 // clocks of synchronisation objects (atomic cells, mutexes, channels, timers)
+	DoneVC []int32               // join of the clocks of finished threads
 	// encoding/json contract stub (C16)
 	JSONLastMarshal Value
 	JSONLastArg     Value
@@ -228,6 +230,12 @@ func (e *Engine) clone(s *State) *State {
 		n.Shadow = make(map[shadowKey]*shadowCell, len(s.Shadow))
 		for k, v := range s.Shadow {
 			n.Shadow[k] = v
+		}
+	}
+	if s.SyncVC != nil {
+		n.SyncVC = make(map[shadowKey][]int32, len(s.SyncVC))
+		for k, v := range s.SyncVC {
+			n.SyncVC[k] = v
 		}
 	}
 	e.Stats.Clones++
